@@ -12,17 +12,23 @@ SEEDED = os.path.join(HERE, "seeded")
 
 def main():
     rows = []
-    for sid in sorted(os.listdir(SEEDED)):
+    from concurrent.futures import ThreadPoolExecutor
+    sids = [s for s in sorted(os.listdir(SEEDED))
+            if os.path.exists(os.path.join(SEEDED, s, "meta.json"))]
+
+    def ev(sid):
+        p = subprocess.run([os.path.join(HERE, "tools", "eval_seed.py"),
+                            os.path.join(SEEDED, sid, "patch.diff")],
+                           capture_output=True, text=True)
+        txt = p.stdout.split("\n--- ")[0]
+        return sid, json.loads(txt[txt.index("{"):txt.rindex("}") + 1])
+    with ThreadPoolExecutor(5) as ex:
+        results = dict(ex.map(ev, sids))
+    for sid in sids:
         d = os.path.join(SEEDED, sid)
         mp = os.path.join(d, "meta.json")
-        if not os.path.exists(mp):
-            continue
         meta = json.load(open(mp))
-        p = subprocess.run([os.path.join(HERE, "tools", "eval_seed.py"),
-                            os.path.join(d, "patch.diff")],
-                           capture_output=True, text=True)
-        txt = p.stdout
-        res = json.loads(txt[txt.index("{"):txt.rindex("}") + 1])
+        res = results[sid]
         meta["checks_that_fire"] = res.get("fired")
         meta["checks_with_analysis_error"] = res.get("analysis_error")
         meta["detected_by_own_property_check"] = meta["property"] in (
